@@ -525,6 +525,7 @@ func runC09(c *Ctx) {
 	defer runC09CompressedFlagDeclared(c)
 	defer runC09NoFinaliseOnPanic(c)
 	defer runC09DeclaredLengthHonoured(c)
+	defer runC09UnenvelopedSourceProbes(c)
 	// ---------------------------------------------------------------- C09.5
 	c.Rule("C09.5", "a missing grpc-status is an error", 1)
 	ext := p.MustFunc("grpcExtractErrorFromTrailer")
@@ -1080,4 +1081,88 @@ func runC09DeclaredLengthHonoured(c *Ctx) {
 	if nB == 0 {
 		c.Bad("C09.11", FuncName(closeFn), "collected-length-compared-with-declared", closeFn.Pos(), "no finalising flush of an un-enveloped body found: shape changed")
 	}
+}
+
+// runC09UnenvelopedSourceProbes: C09.12 (seed C09j).  For a client WITH envelopes the bytes after a
+// message's payload are the next envelope, so the per-message source may stop by itself when the
+// announced length is used up.  For a client WITHOUT envelopes the declared Content-Length is the
+// whole body: a body that continues beyond it "declares a length the bytes do not honour", and the
+// only way to notice is a source that keeps reading and reports the surplus.  So the source
+// installed on the 'client has no envelopes' branch is never a module reader whose Read produces
+// io.EOF on its own.
+func runC09UnenvelopedSourceProbes(c *Ctx) {
+	p := c.P
+	c.Rule("C09.12", "the body source of a client without envelopes does not end the body on its own (a surplus is reported)", 1)
+	erT := types.NewPointer(p.MustNamed("envelopingReader"))
+	curF := p.MustField("envelopingReader", "current")
+	cliEnvF := p.MustField("operation", "clientEnveloper")
+	n := 0
+	for _, fn := range readerFuncs(p, erT) {
+		for _, st := range StoresToField(fn, curF) {
+			unenv := false
+			for _, f := range p.FactsAtInter(st.Block()) {
+				if cmp, ok := f.AsCmp(); ok && cmp.Op == token.EQL && IsNilConst(cmp.Y) && LoadedField(cmp.X) == cliEnvF {
+					unenv = true
+				}
+			}
+			if !unenv {
+				continue
+			}
+			for _, l := range Origins(st.Val) {
+				if l.Kind != "alloc" {
+					continue
+				}
+				pt, ok := l.V.Type().(*types.Pointer)
+				if !ok {
+					continue
+				}
+				named, ok := pt.Elem().(*types.Named)
+				if !ok || named.Obj().Pkg() == nil || named.Obj().Pkg().Path() != RootPath {
+					continue
+				}
+				rd := p.MethodOf(types.NewPointer(named), "Read")
+				if rd == nil {
+					continue
+				}
+				n++
+				ownEOF := ""
+				ForEachInstr(rd, func(in ssa.Instruction) {
+					ret, ok := in.(*ssa.Return)
+					if !ok {
+						return
+					}
+					rv := ReturnValues(ret)
+					if len(rv) != 2 {
+						return
+					}
+					for _, lo := range Origins(rv[1]) {
+						if lo.Kind == "global" || lo.Kind == "load" {
+							if g, isG := globalOf(lo.V); isG && g.Pkg != nil && g.Pkg.Pkg.Path() == "io" && g.Name() == "EOF" {
+								ownEOF = p.Pos(ret.Pos())
+							}
+						}
+					}
+				})
+				c.Check(ownEOF == "", "C09.12", FuncName(fn), "unenveloped-source:"+N(named.Obj()), st.Pos(),
+					"the reader installed for the un-enveloped body never produces io.EOF itself: it ends when the client's body ends and reports a surplus",
+					"the source installed for the body of a client without envelopes is a "+N(named.Obj())+", whose Read returns io.EOF on its own ("+ownEOF+") once the announced length is used up: a body longer than its declared Content-Length is silently cut and handed to the backend as a complete message")
+			}
+		}
+	}
+	if n == 0 {
+		c.Bad("C09.12", "envelopingReader", "unenveloped-source", token.NoPos, "no module reader is installed as the source of an un-enveloped body: shape changed")
+	}
+}
+
+// globalOf: v is (a load of) a package-level variable.
+func globalOf(v ssa.Value) (*ssa.Global, bool) {
+	switch x := v.(type) {
+	case *ssa.Global:
+		return x, true
+	case *ssa.UnOp:
+		if g, ok := x.X.(*ssa.Global); ok {
+			return g, true
+		}
+	}
+	return nil, false
 }
